@@ -2,6 +2,8 @@ import Hub.Proofs.ListPaging
 import Hub.Proofs.StoreInv
 import Hub.Proofs.SortPerm
 import Hub.Proofs.Lookup
+import Hub.Proofs.Frame
+import Hub.Proofs.TxnRefine
 import Hub.Generated.Layout
 /-!
 # C01 — the latest view equals the last stored version of every entity
@@ -196,6 +198,120 @@ theorem lookup_partials_of_inv {db : DB} {S : Spec} (h : Inv db S) : (db.version
 example : let a : Ent := ⟨1, false, [], "1", []⟩; let b : Ent := ⟨1, false, [], "2", []⟩; let d : Ent := ⟨1, true, [], "2", []⟩
     let db := storeBatch (storeBatch (storeBatch (storeBatch {} 2 10 [a]) 2 20 [b]) 3 15 [a]) 3 22 [d]
     (partialsAt db 1 25 []).1.map (·.1.t) = [20] ∧ (partialsAt db 1 21 []).1.map (·.1.t) = [20, 15] ∧ (partialsAt db 1 25 []).2 = true := by decide
+
+/-- T-C01-8 (one partial per dataset): whatever the history, instant and scope, a lookup never merges two
+versions of the same dataset — a scoped lookup of one dataset therefore returns a single version. -/
+theorem lookup_one_partial_per_dataset (db : DB) (hk : (db.versions.map (·.1)).Nodup) (rid at_ : Nat) (scope : List Nat)
+    (p q : VKey × Ent) (hp : p ∈ (partialsAt db rid at_ scope).1) (hq : q ∈ (partialsAt db rid at_ scope).1)
+    (hds : p.1.ds = q.1.ds) : p = q := by
+  obtain ⟨hpv, _, hpn⟩ := (lookup_partials_spec db hk rid at_ scope p).1 hp
+  obtain ⟨hqv, _, hqn⟩ := (lookup_partials_spec db hk rid at_ scope q).1 hq
+  have hkey : p.1 = q.1 := Hub.Lookup.lt_total _ _ (hpn q hqv hds.symm) (hqn p hpv hds)
+  exact Hub.Lookup.visible_key_unique db hk rid at_ scope p q hpv hqv hkey
+
+/-- T-C01-9 (a superseded version contributes nothing): a version with a newer visible version of the same dataset —
+live or deleted — is not merged. -/
+theorem lookup_superseded_invisible (db : DB) (hk : (db.versions.map (·.1)).Nodup) (rid at_ : Nat) (scope : List Nat)
+    (p q : VKey × Ent) (hq : q ∈ visibleVersions db rid at_ scope) (hds : q.1.ds = p.1.ds) (hlt : p.1.lt q.1 = true) :
+    p ∉ (partialsAt db rid at_ scope).1 := by
+  intro hp
+  have := ((lookup_partials_spec db hk rid at_ scope p).1 hp).2.2 q hq hds
+  rw [hlt] at this
+  exact Bool.noConfusion this
+
+/-- T-C01-10 (what a merged version is): it is a stored version of this entity, recorded at or before the instant, live,
+of a dataset that is not deleted and — for a scoped lookup — in scope. Nothing from the future, from a deleted dataset
+or from outside the scope is ever returned. -/
+theorem lookup_partial_sound (db : DB) (hk : (db.versions.map (·.1)).Nodup) (rid at_ : Nat) (scope : List Nat)
+    (p : VKey × Ent) (hp : p ∈ (partialsAt db rid at_ scope).1) :
+    p ∈ db.versions ∧ p.1.rid = rid ∧ p.1.t ≤ at_ ∧ p.2.deleted = false ∧ p.1.ds ∉ db.deletedDs ∧ (scope = [] ∨ p.1.ds ∈ scope) := by
+  obtain ⟨hv, hd, _⟩ := (lookup_partials_spec db hk rid at_ scope p).1 hp
+  obtain ⟨h1, h2, h3, h4, h5⟩ := (Hub.Lookup.mem_visible db rid at_ scope p).1 hv
+  exact ⟨h1, h2, h3, hd, h4, h5⟩
+
+/-- T-C01-11 (completeness per dataset): a dataset whose newest visible version of the entity is live contributes exactly
+that version — a lookup cannot lose a dataset's live state. -/
+theorem lookup_newest_live_returned (db : DB) (hk : (db.versions.map (·.1)).Nodup) (rid at_ : Nat) (scope : List Nat)
+    (p : VKey × Ent) (hv : p ∈ visibleVersions db rid at_ scope) (hlive : p.2.deleted = false)
+    (hnew : ∀ q ∈ visibleVersions db rid at_ scope, q.1.ds = p.1.ds → p.1.lt q.1 = false) :
+    p ∈ (partialsAt db rid at_ scope).1 :=
+  (lookup_partials_spec db hk rid at_ scope p).2 ⟨hv, hlive, hnew⟩
+
+-- non-vacuity: two datasets, the scoped lookup returns one version, the unscoped one a version per dataset
+example : let a : Ent := ⟨1, false, [], "1", []⟩; let b : Ent := ⟨1, false, [], "2", []⟩
+    let db := storeBatch (storeBatch (storeBatch {} 2 10 [a]) 2 20 [b]) 3 15 [a]
+    (partialsAt db 1 25 [2]).1.map (·.1.t) = [20] ∧ (partialsAt db 1 25 []).1.map (·.1.ds) = [2, 3]
+    ∧ (db.versions.map (·.1)).Nodup := by decide
+
+/-! ## every history -/
+
+/-- a history of batches `(dataset, commit time, entities)` applied to the store … -/
+def runHist (h : List (Nat × Nat × List Ent)) (db : DB) : DB := h.foldl (fun db w => storeBatch db w.1 w.2.1 w.2.2) db
+/-- … and to the specification. -/
+def specHist (h : List (Nat × Nat × List Ent)) (S : Spec) : Spec := h.foldl (fun S w => specFrom w.1 w.2.1 0 w.2.2 S) S
+
+/-- T-C01-5b (every reachable state): from the empty store, after any history of batches — any number, any datasets, any
+content — whose commit times increase (they are taken from the clock under the dataset lock, `facts_shape`), the store
+satisfies the invariant against the specification of that history; every `Inv` hypothesis of this file (listing = latest
+versions, listed once, paging, lookups) is therefore met by every state the write path can reach. -/
+theorem refinement_history (h : List (Nat × Nat × List Ent)) (hinc : h.Pairwise (fun a b => a.2.1 < b.2.1)) :
+    Inv (runHist h {}) (specHist h {}) := by
+  suffices g : ∀ (h : List (Nat × Nat × List Ent)) (db : DB) (S : Spec), Inv db S →
+      (∀ v ∈ db.versions, ∀ w ∈ h, v.1.t < w.2.1) → h.Pairwise (fun a b => a.2.1 < b.2.1) →
+      Inv (runHist h db) (specHist h S) from
+    g h {} {} inv_empty (by intro v hv; simp at hv) hinc
+  intro h
+  induction h with
+  | nil => intro db S hI _ _; exact hI
+  | cons w ws ih =>
+    intro db S hI hb hp
+    have hw := List.pairwise_cons.1 hp
+    simp only [runHist, specHist, List.foldl_cons]
+    apply ih
+    · exact refinement hI w.1 w.2.1 (fun v hv _ => hb v hv w (List.mem_cons_self ..)) w.2.2
+    · intro v hv w' hw'
+      obtain ⟨_, ⟨new, hvs, hn⟩, _⟩ := Hub.Frame.writeFrom_frame db w.1 w.2.1 [] w.2.2 0 (db, [])
+      have hvs' : (storeBatch db w.1 w.2.1 w.2.2).versions = db.versions ++ new := hvs
+      rw [hvs'] at hv
+      rcases List.mem_append.1 hv with hv | hv
+      · exact hb v hv w' (List.mem_cons_of_mem _ hw')
+      · rw [(hn v hv).1]; exact hw.1 w' hw'
+    · exact hw.2
+
+-- non-vacuity: three batches over two datasets
+example : let e : Ent := ⟨1, false, [], "a", []⟩; let d : Ent := ⟨1, true, [], "a", []⟩
+    let h := [(2, 10, [e, e, d]), (3, 15, [e]), (2, 20, [d, e])]
+    h.Pairwise (fun a b => a.2.1 < b.2.1) ∧ (runHist h {}).versions.length = 4 := by decide
+
+/-! ## transactions -/
+open Hub.TxnRefine in
+/-- T-C01-5c (a transaction is its batches, at one instant): `ExecuteTransaction` lets every dataset's write loop read the
+snapshot taken before the transaction. For every state satisfying the invariant and every transaction — any number of
+datasets (one part per dataset: the request is a map), any content — committed later than everything in its datasets, the
+result is exactly that of its per-dataset batches one after the other at the same commit time, and it satisfies the
+invariant against the specification of those batches: the latest view, listings and lookups after a transaction are those
+of its last stored versions. -/
+theorem txn_refinement {db : DB} {S : Spec} (h : Inv db S) (t : Nat) (parts : List (Nat × List Ent))
+    (hd : (parts.map (·.1)).Nodup) (hfresh : ∀ p ∈ parts, ∀ v ∈ db.versions, v.1.ds = p.1 → v.1.t < t) :
+    execTxn db t parts = batches db t parts ∧ Inv (execTxn db t parts) (specTxn t parts S) :=
+  txn_refines db S h t parts hd hfresh
+
+open Hub.TxnRefine in
+/-- T-C01-5d (every reachable state, transactions included): from the empty store, after any history of transactions and
+batches (a batch is a transaction with one part) with increasing commit times, the store satisfies the invariant against
+the specification of that history. -/
+theorem refinement_history_txn (h : List (Nat × List (Nat × List Ent))) (hinc : h.Pairwise (fun a b => a.1 < b.1))
+    (hd : ∀ w ∈ h, (w.2.map (·.1)).Nodup) : Inv (runTxns h {}) (specTxns h {}) :=
+  txns_refine h {} {} inv_empty (by intro v hv; simp at hv) hinc hd
+
+/-- a batch is the transaction with one part. -/
+theorem batch_is_txn (db : DB) (ds t : Nat) (b : List Ent) : execTxn db t [(ds, b)] = storeBatch db ds t b := rfl
+
+-- non-vacuity: a transaction over two datasets after a batch; the second part reads the pre-transaction snapshot
+open Hub.TxnRefine in
+example : let e : Ent := ⟨1, false, [], "a", []⟩; let d : Ent := ⟨1, true, [], "a", []⟩
+    let h := [(10, [(2, [e])]), (20, [(2, [d, e, d]), (3, [e, e])])]
+    h.Pairwise (fun a b => a.1 < b.1) ∧ (∀ w ∈ h, (w.2.map (·.1)).Nodup) ∧ ((runTxns h {}).versions.map (·.1.t)) = [10, 20, 20, 20, 20] := by decide
 
 /-! ## tie to the Go source (regenerated facts) -/
 open Hub.Facts.Layout in
